@@ -6,7 +6,8 @@ import Octo.Spec.JoinSem
   from := t<i> | sub <from> <expr> | proj <k> <from> <expr>×k | j (inner|lookup|left|right|full) <from> <from> <expr>
   whr  := - | <expr>        proj := * | P<k> <expr>…        (expressions as in SqlCodec; c<i> is positional)
   output := rows <n> | <row> | …  (rows sorted as text: the order of a join's output depends on the schedule)  or  err
-  model = the engine pipeline `runQuery` (plan, optimizer, node machines under a fixed scheduler, consolidation);
+  model = the engine pipeline `runQueryMode` (plan, optimizer, node machines under a fixed scheduler, the sink of the
+          output mode);
   judge = the SQL join semantics `joinSem` applied to what the implementation printed.
 -/
 namespace Octo.Drv.C02
@@ -75,11 +76,14 @@ def sortStrs (l : List String) : List String := l.foldr insertStr []
 def renderSorted (rows : List Row) : String :=
   String.intercalate " | " (s!"rows {rows.length}" :: sortStrs (rows.map renderRow))
 
+def sinkOf (mode : String) : SinkMode :=
+  if mode == "json" || mode == "csv" then .eager else if mode == "stream_native" then .native else .table
+
 def model (toks : List String) : String :=
   match parseJoinOp toks with
   | none => "bad-op"
   | some op =>
-    match runQuery alternate op.opt op.query op.db with
+    match runQueryMode (sinkOf op.mode) alternate op.opt op.query op.db with
     | none => "err"
     | some rows => renderSorted rows
 
